@@ -185,25 +185,29 @@ def nsNormalize (g : G) : G :=
     let lowest := rest.foldl (fun m n => min m (g.layerOf n)) (g.layerOf n0)
     if lowest == 0 then g else g.nodeIds.foldl (fun g n => setLayer g n (g.layerOf n - lowest)) g
 
+def lsCount (ls : List (Int × Int)) (l : Int) : Int := lookupD 0 ls l
+def lsBump (ls : List (Int × Int)) (l : Int) (d : Int) : List (Int × Int) :=
+  if ls.any (·.1 == l) then ls.map fun (k, c) => if k == l then (k, c + d) else (k, c) else ls ++ [(l, d)]
+
+/-- one node of `vbalance`: a node with as many in- as out-edges moves to the least crowded layer of its feasible range -/
+def vbalanceStep (lmax : Int) (acc : G × List (Int × Int)) (n : Nat) : G × List (Int × Int) :=
+  let (g, lsize) := acc
+  let nd := g.node n
+  if nd.ins.length != nd.outs.length then acc else
+  let low := nd.ins.foldl (fun m e => max m (g.layerOf (g.edge e).src + (g.edge e).delta)) 0
+  let high := nd.outs.foldl (fun m e => min m (g.layerOf (g.edge e).dst - (g.edge e).delta)) lmax
+  let newl := (List.range (high - low).toNat).foldl (fun (nl : Int) (k : Nat) =>
+    let i := low + 1 + (k : Int)
+    if lsCount lsize i < lsCount lsize nl then i else nl) low
+  if lsCount lsize newl < lsCount lsize nd.layer then
+    (setLayer g n newl, lsBump (lsBump lsize nd.layer (-1)) newl 1)
+  else acc
+
 /-- `vbalance` -/
 def vbalance (g : G) : G :=
   let lmax := g.nodeIds.foldl (fun m n => max m (g.layerOf n)) 0
-  let count := fun (ls : List (Int × Int)) (l : Int) => lookupD 0 ls l
-  let bump := fun (ls : List (Int × Int)) (l : Int) (d : Int) =>
-    if ls.any (·.1 == l) then ls.map fun (k, c) => if k == l then (k, c + d) else (k, c) else ls ++ [(l, d)]
-  let lsize := g.nodeIds.foldl (fun ls n => bump ls (g.layerOf n) 1) []
-  (g.nodeIds.foldl (fun (acc : G × List (Int × Int)) n =>
-    let (g, lsize) := acc
-    let nd := g.node n
-    if nd.ins.length != nd.outs.length then acc else
-    let low := nd.ins.foldl (fun m e => max m (g.layerOf (g.edge e).src + (g.edge e).delta)) 0
-    let high := nd.outs.foldl (fun m e => min m (g.layerOf (g.edge e).dst - (g.edge e).delta)) lmax
-    let newl := (List.range (high - low).toNat).foldl (fun (nl : Int) (k : Nat) =>
-      let i := low + 1 + (k : Int)
-      if count lsize i < count lsize nl then i else nl) low
-    if count lsize newl < count lsize nd.layer then
-      (setLayer g n newl, bump (bump lsize nd.layer (-1)) newl 1)
-    else acc) (g, lsize)).1
+  let lsize := g.nodeIds.foldl (fun ls n => lsBump ls (g.layerOf n) 1) []
+  (g.nodeIds.foldl (vbalanceStep lmax) (g, lsize)).1
 
 /-- `adjustLayers(n, delta)`: explicit stack -/
 def adjustLayers (s : NS) : Nat → List (Nat × Int) → G → M G
